@@ -6,11 +6,11 @@
   the text; at or past the end nothing is produced) and `ScanFinal` (a refusal is
   final: if the scanner declines at a position, then in the state it was left in
   it declines there again).  A *history* is any finite sequence of public `Lexer`
-  calls on a fresh lexer — `next`, `peek`, `next_if`, `advance_to`,
+  calls on a fresh lexer — `next`, `peek`, `is_empty_with_filter` (a lookahead that answers a flag), `next_if`, `advance_to`,
   `advance_up_to`, `set_filter`, `with_filter`, span queries, sub-lex marks — where
   `forkBegin … forkEnd` clones the current lexer, runs the enclosed calls on the
   clone and drops it (`LexOps.exec`).  Its *projection* erases clone bodies,
-  `peek`, sub-lex marks and span queries and keeps the advances and filter changes.
+  `peek`, `is_empty_with_filter`, sub-lex marks and span queries and keeps the advances and filter changes.
   What a history *delivers* is, for every advance outside clones, its result and —
   when a token is returned — `token_span()` right after it (`LexOps.delivered`).
 
